@@ -86,6 +86,11 @@ func jobsFor(prop, tier string) []Job {
 		js = []Job{
 			mk("crash-w0", params("W", 0), 1, tears, false, 0),
 			mk("crash-w1-multikey", params("W", 1, "MEMTHR", 60), 1, tears, false, 0),
+			func() Job {
+				j := mk("crash-w2-samesecond", params("W", 2), 1, tears, false, 0)
+				j.SameSecond = true // all WAL names within one second: the nanosecond part (3, 6, 9, 12, ..) orders them
+				return j
+			}(),
 		}
 		if thorough {
 			js = append(js, mk("crash-w2", params("W", 2), 1, tears, false, 0),
